@@ -82,7 +82,11 @@ type vc07Node struct {
 	p     *protocol
 	conn  *grpc.StubConnection // this node's connection TO the other node
 	other transport.Peer
-	set   map[int]bool // last observed transaction set (universe indices), for the never-shrinks clause
+	// connection churn: connected = this node currently sees the stream to the other node; handles = the ticker
+	// goroutines the gossip manager started for it (see gossip.VerifHandle)
+	connected bool
+	handles   []*gossip.VerifHandle
+	set       map[int]bool // last observed transaction set (universe indices), for the never-shrinks clause
 	// cache of the set as listed by the real State, dropped whenever this node executes a step
 	cur        map[int]bool
 	curForeign string
@@ -99,33 +103,41 @@ type vc07Msg struct {
 }
 
 // vc07Event is one step of a history. N: node (tick, expire, lexpire). M: message id.
-//   deliver(m)  hand an in-flight original to its destination (ANY in-flight message: reordering)
-//   drop(m)     lose it                                                             [fault]
-//   dup(m)      deliver it and leave a copy in flight                                [fault]
-//   stale(m)    deliver such a left-over copy, at any later moment (a duplicate that arrives after the
-//               exchange it belongs to has long been answered: a stale / unsolicited response)
-//   tick(n)     one gossip round of n
-//   expire(n)   the clock passes the conversation validity and n's eviction runs, while nothing is in flight
-//   lexpire(n)  the same while original messages are still in flight, i.e. they are delayed > 30 s  [fault]
+//
+//	deliver(m)  hand an in-flight original to its destination (ANY in-flight message: reordering)
+//	drop(m)     lose it                                                             [fault]
+//	dup(m)      deliver it and leave a copy in flight                                [fault]
+//	stale(m)    deliver such a left-over copy, at any later moment (a duplicate that arrives after the
+//	            exchange it belongs to has long been answered: a stale / unsolicited response)
+//	tick(n)     one gossip round of n
+//	expire(n)   the clock passes the conversation validity and n's eviction runs, while nothing is in flight
+//	lexpire(n)  the same while original messages are still in flight, i.e. they are delayed > 30 s  [fault]
+//	disc(n)     the stream between the nodes drops and node n notices (n = 2: both notice at once): the REAL
+//	            connectionStateCallback(StateDisconnected) runs on it (gossip PeerDisconnected, diagnostics), its
+//	            connection reports closed, and everything in flight in either direction is lost with the stream  [fault]
+//	reconnect(n) node n sees the stream re-established: connectionStateCallback(StateConnected) (gossip PeerConnected with
+//	            the current XOR/clock). Nothing travels while either side is disconnected.
 type vc07Event struct {
 	K string `json:"k"`
 	N int    `json:"n,omitempty"`
 	M int    `json:"m,omitempty"`
 }
 
-func (e vc07Event) fault() bool { return e.K == "drop" || e.K == "dup" || e.K == "lexpire" }
+func (e vc07Event) fault() bool {
+	return e.K == "drop" || e.K == "dup" || e.K == "lexpire" || e.K == "disc"
+}
 
 type vc07World struct {
-	u        *vc07Universe
-	nodes    [2]*vc07Node
-	pool     []*vc07Msg
-	nextID   int
-	faults   int
-	offset   time.Duration // virtual clock, shared by both nodes (one process)
-	steps    int64         // real handler / sender invocations
-	outcome  func(string)
-	lastErr  string
-	light    bool // see readSet
+	u       *vc07Universe
+	nodes   [2]*vc07Node
+	pool    []*vc07Msg
+	nextID  int
+	faults  int
+	offset  time.Duration // virtual clock, shared by both nodes (one process)
+	steps   int64         // real handler / sender invocations
+	outcome func(string)
+	lastErr string
+	light   bool // see readSet
 }
 
 var vc07Base = time.Date(2030, 1, 1, 0, 0, 0, 0, time.UTC)
@@ -177,9 +189,18 @@ func vc07MakeTemplate(t testing.TB, dir string, u *vc07Universe, init [2][]int) 
 // wires the two protocols and connects them. late[n] are added through State.Add AFTER the connection
 // is up, so they pass through the real gossip notifier into the peer queue (freshly created transactions).
 func vc07Build(t testing.TB, dir string, u *vc07Universe, tpl *vc07Template, late [2][]int) *vc07World {
+	return vc07BuildPeers(t, dir, u, tpl, late, false)
+}
+
+// vc07BuildPeers: withDID gives both connections an authenticated node DID (transport.Peer.Key() then carries it).
+func vc07BuildPeers(t testing.TB, dir string, u *vc07Universe, tpl *vc07Template, late [2][]int, withDID bool) *vc07World {
 	vtime.Freeze(vc07Base)
 	w := &vc07World{u: u}
 	peers := [2]transport.Peer{{ID: "nodeA", Address: "a.test:5555"}, {ID: "nodeB", Address: "b.test:5555"}}
+	if withDID {
+		peers[0].NodeDID, peers[0].Authenticated = did.MustParseDID("did:nuts:nodeA"), true
+		peers[1].NodeDID, peers[1].Authenticated = did.MustParseDID("did:nuts:nodeB"), true
+	}
 	for n := 0; n < 2; n++ {
 		path := filepath.Join(dir, fmt.Sprintf("w_%d_%d.db", atomic.AddInt64(&vc07FileCounter, 1), n))
 		if err := os.WriteFile(path, tpl.bytes[n], 0o600); err != nil {
@@ -205,8 +226,8 @@ func vc07Build(t testing.TB, dir string, u *vc07Universe, tpl *vc07Template, lat
 		other := peers[1-n]
 		conn := grpc.NewStubConnection(other)
 		p.connectionList = &grpc.StubConnectionList{Conn: conn}
-		p.connectionStateCallback(other, transport.StateConnected, p)
 		w.nodes[n] = &vc07Node{name: string(peers[n].ID), path: path, db: db, state: st, p: p, conn: conn, other: other}
+		w.connect(n)
 	}
 	for n := 0; n < 2; n++ {
 		w.nodes[n].set, _ = w.readSet(n)
@@ -239,9 +260,41 @@ func (w *vc07World) close() {
 func (w *vc07World) setClock() { vtime.Freeze(vc07Base); vtime.Advance(w.offset) }
 
 // collect moves whatever the nodes handed to Send into the pool, as wire bytes.
+func (w *vc07World) linkUp() bool { return w.nodes[0].connected && w.nodes[1].connected }
+
+// connect / disconnect run the real connection-state callback of node n.
+func (w *vc07World) connect(n int) {
+	nd := w.nodes[n]
+	nd.conn.Open = true
+	nd.connected = true
+	nd.p.connectionStateCallback(nd.other, transport.StateConnected, nd.p)
+	if h := gossip.VerifAfterConnect(nd.p.gManager, nd.other, nd.handles); h != nil {
+		known := false
+		for _, x := range nd.handles {
+			known = known || x == h
+		}
+		if !known {
+			nd.handles = append(nd.handles, h)
+		}
+	}
+}
+
+func (w *vc07World) disconnect(n int) {
+	nd := w.nodes[n]
+	nd.conn.Open = false
+	nd.connected = false
+	nd.p.connectionStateCallback(nd.other, transport.StateDisconnected, nd.p)
+	w.collect()
+	w.pool = nil // lost with the stream
+}
+
 func (w *vc07World) collect() {
 	for n := 0; n < 2; n++ {
 		c := w.nodes[n].conn
+		if !w.linkUp() {
+			c.SentMsgs = nil // nothing travels while either side is disconnected
+			continue
+		}
 		for _, m := range c.SentMsgs {
 			raw, err := proto.MarshalOptions{Deterministic: true}.Marshal(m.(*Envelope))
 			if err != nil {
@@ -350,9 +403,27 @@ func (w *vc07World) apply(e vc07Event) bool {
 	case "tick":
 		w.setClock()
 		n := w.nodes[e.N]
-		if !gossip.VerifTick(n.p.gManager, n.other) {
-			panic("gossip administration missing")
+		res := gossip.VerifTick(n.p.gManager, n.other, n.handles)
+		if w.outcome != nil {
+			w.outcome("tick:" + res)
 		}
+		w.steps++
+		w.collect()
+	case "disc":
+		w.setClock()
+		w.faults++
+		for n := 0; n < 2; n++ {
+			if (e.N == n || e.N == 2) && w.nodes[n].connected {
+				w.disconnect(n)
+			}
+		}
+		w.steps++
+	case "reconnect":
+		w.setClock()
+		if w.nodes[e.N].connected {
+			return false
+		}
+		w.connect(e.N)
 		w.steps++
 		w.collect()
 	case "expire", "lexpire":
@@ -568,9 +639,12 @@ func (w *vc07World) canon() string {
 			convDesc[id] = fmt.Sprintf("conv@%d %s %s last=%v", n, content, bucket, last)
 		}
 		cm.mutex.RUnlock()
+		exists, alive := gossip.VerifTickerAlive(nd.p.gManager, nd.other, nd.handles)
+		fmt.Fprintf(&sb, " connected=%v ticker=%v", nd.connected, alive)
 		q, ok := gossip.VerifSnapshot(nd.p.gManager, nd.other)
-		if !ok {
-			panic("gossip administration missing")
+		if !ok || !exists {
+			sb.WriteString(" queue=none\n")
+			continue
 		}
 		sb.WriteString(" queue=[")
 		for _, h := range q.Queue {
@@ -623,7 +697,7 @@ func (w *vc07World) canon() string {
 // ---------------------------------------------------------------------------------------------------------
 // fair suffix
 
-// fairSuffix runs: repeat { expire both; tick A; tick B; deliver everything FIFO until the pool is empty }
+// fairSuffix runs: repeat { reconnect whoever is disconnected; expire both; tick A; tick B; deliver everything FIFO until the pool is empty }
 // until both sets equal the union and the digests are equal. It returns the number of rounds used, or
 // -1 with a reason when the state at a round boundary repeats (the deterministic fair schedule cycles:
 // it will never converge) or rmax rounds pass. check (optional) is called after every step.
@@ -645,6 +719,11 @@ func (w *vc07World) fairSuffix(rmax int, check func() bool) (rounds int, reason 
 			return -1, "cycle"
 		}
 		seen[c] = true
+		for n := 0; n < 2; n++ {
+			if !w.nodes[n].connected {
+				w.apply(vc07Event{K: "reconnect", N: n})
+			}
+		}
 		w.apply(vc07Event{K: "expire", N: 0})
 		w.nodes[1].p.cMan.evict()
 		w.apply(vc07Event{K: "tick", N: 0})
